@@ -44,6 +44,10 @@ type Fault struct {
 	// delivery to it; returns true once the deviation has been applied.
 	Deviator  party.ID                                `json:"deviator,omitempty"`
 	StateHook func(h protocol.Handler) (applied bool) `json:"-"`
+	// WrapStart, if set, wraps the deviator's start function: the first round object can be altered
+	// BEFORE the handler's constructor finalises it (e.g. a dealer that uses another polynomial from
+	// the very beginning, so that its commitment, its opening and its shares are all consistent).
+	WrapStart func(protocol.StartFunc) protocol.StartFunc `json:"-"`
 }
 
 // PartyEnd describes how one party ended.
@@ -100,6 +104,18 @@ func matches(f *Fault, d drv.Delivery) bool {
 }
 
 func run(spec *sess.Spec, seed int64, label string, f *Fault, observe func(drv.Delivery)) *End {
+	if f != nil && f.WrapStart != nil {
+		orig, dev, wrap := spec.Start, f.Deviator, f.WrapStart
+		cp := *spec
+		cp.Start = func(id party.ID) protocol.StartFunc {
+			sf := orig(id)
+			if id == dev && sf != nil {
+				return wrap(sf)
+			}
+			return sf
+		}
+		spec = &cp
+	}
 	net, startErr := sess.Build(spec, seed, label)
 	end := &End{Parties: map[party.ID]*PartyEnd{}, StartErr: startErr, RelayFrom: map[party.ID]party.ID{}}
 	if len(startErr) > 0 {
